@@ -40,7 +40,7 @@ Ltac fm_run := unfold fexec, fcall, fbody; cbn -[Nat.ltb Nat.leb Nat.eqb nth_err
 
 Theorem fexec_expected m o : fexec fm_expected m o = Some (fm_step m o).
 Proof.
-  destruct o as [k|k|k v|i| | |k|k|].
+  destruct o as [k|k|k v|i| | |k|k| |k|i].
   - (* at *)
     fm_run. rewrite lookup_nth.
     set (i := find_pos _ m). pose proof (find_pos_le (fun kv : N * N => N.eqb (fst kv) k) m) as Hle. fold i in Hle.
@@ -90,6 +90,20 @@ Proof.
     match goal with |- context [Nat.leb ?a ?b] => replace (Nat.leb a b) with true by (symmetry; apply Nat.leb_le; lia) end.
     cbn -[firstn]. rewrite firstn_filter_app. reflexivity.
   - reflexivity.
+  - (* at const *)
+    fm_run. rewrite lookup_nth.
+    set (i := find_pos _ m). pose proof (find_pos_le (fun kv : N * N => N.eqb (fst kv) k) m) as Hle. fold i in Hle.
+    destruct (Nat.eqb_spec i (length m)) as [E|E]; cbn -[Nat.ltb nth_error].
+    + rewrite E, nth_error_len. reflexivity.
+    + assert (Hlt : (i < length m)%nat) by lia.
+      apply Nat.ltb_lt in Hlt as Hb. rewrite Hb. cbn -[nth_error].
+      destruct (nth_error m i) as [kv|] eqn:En; [reflexivity|]. apply nth_error_None in En. lia.
+  - (* at_index const *)
+    fm_run.
+    destruct (Nat.ltb_spec (N.to_nat i) (length m)) as [Hlt|Hge]; cbn -[nth_error].
+    + destruct (nth_error m (N.to_nat i)) as [[a b]|] eqn:En; [reflexivity|]. apply nth_error_None in En. lia.
+    + destruct (nth_error m (N.to_nat i)) as [[a b]|] eqn:En; [|reflexivity].
+      assert (nth_error m (N.to_nat i) <> None) as Hn by congruence. apply nth_error_Some in Hn. lia.
 Qed.
 
 (* begin()..end(), the const and c-variants enumerate the vector in order; rbegin()..rend() backwards *)
@@ -113,6 +127,21 @@ Theorem fconst_expected m k :
   fcall fm_expected MAtIndexC m k = fcall fm_expected MAtIndex m k /\
   fcall fm_expected MLookupC m k = fcall fm_expected MLookup m k.
 Proof. repeat split; reflexivity. Qed.
+
+(* what a forwarding const overload would do - the interpreter follows the call, so the callee matters:
+   at() const forwarding to at() is at(); forwarding to operator[] appends the absent key instead of throwing *)
+Definition fwd (callee : fmeth) (m : fmeth) : list fstmt :=
+  match m with MAtC => [FS (FRetCall callee)] | _ => fm_expected m end.
+
+Example forward_to_at_ok :
+  fexec (fwd MAt) [(1, 10)] (FAtC 2) = Some (fm_step [(1, 10)] (FAtC 2)) /\
+  fexec (fwd MAt) [(1, 10); (2, 7)] (FAtC 2) = Some (fm_step [(1, 10); (2, 7)] (FAtC 2)).
+Proof. vm_compute. auto. Qed.
+
+Theorem forward_to_index_refuted :
+  fexec (fwd MIndex) [(1, 10)] (FAtC 2) = Some ([(1, 10); (2, 0)], OVal 0) /\
+  fm_step [(1, 10)] (FAtC 2) = ([(1, 10)], OThrow).
+Proof. vm_compute. auto. Qed.
 
 (* ------------------------------------------------------------ ParameterizedObject *)
 
